@@ -613,11 +613,20 @@ def py_valid(case):
     return True
 
 
+def names_ok(case):
+    """structure atoms are told apart by (name, residue number, PART): the minimised file must stay a valid one"""
+    _, info = abstract(case)
+    keys = [(info[o['tag']]['name'].upper(), o['rnum'], o['part']) for o in expected(case) if not o['q']]
+    return len(keys) == len(set(keys))
+
+
 def shrink(case, attr, pos, budget=120):
     """greedy one-item removal while a failure of the same attribute remains"""
+    ok0 = names_ok(case)
+
     def fails(c):
         try:
-            return py_valid(c) and any(d[0] == attr for d in check_impl(c))
+            return py_valid(c) and (names_ok(c) or not ok0) and any(d[0] == attr for d in check_impl(c))
         except Exception:
             return False
     cur = case
